@@ -759,6 +759,25 @@ Fixpoint p_until_events (single closed : bool) (cap fuel e n : nat) (s : st) : l
 (* the recorder catches up completely: every message, then every queued buffer *)
 Definition catch_up (s : st) : list lab := repeat LR (length (chan s)) ++ repeat LW (length (chan s) + length (wl s)).
 
+(* EVENT records of a read trigger (-T f@read=proc/statm: record_event, a header with the `more` bit and a payload
+   of u16 size ++ data): record_ret_stack stores the "read" event right after the function's ENTRY record and the
+   "diff" event right before its EXIT record - whenever those are written (lazily, by the crash handler, ...).
+   The table gives, keyed by the time of the ENTRY / EXIT record (fake clock: unique), the event record. *)
+Definition ev_tab := list (N * bool * rec).
+Fixpoint find_ev (t : N) (x : bool) (evs : ev_tab) : option rec :=
+  match evs with
+  | [] => None
+  | (t', x', e) :: r => if (t' =? t)%N && Bool.eqb x' x then Some e else find_ev t x r
+  end.
+Definition add_events (evs : ev_tab) (g : list rec) : list rec :=
+  flat_map (fun r =>
+    let x := (r_type r =? UFTRACE_EXIT)%N in
+    if (r_type r =? UFTRACE_EVENT)%N then [r]
+    else match find_ev (r_time r) x evs with
+         | Some e => if x then [e; r] else [r; e]
+         | None => [r]
+         end) g.
+
 (* ---- one case of the store-level tie (props/c04.py, harness/c/c04_rec.c + c04_prod.c) ----
    The producer executes the hook calls `tc_ops` one after the other; before op i the recorder
    catches up when `nth i tc_sync`; with `tc_kill = Some e` the last op is cut right after the
@@ -771,6 +790,7 @@ Record tcase := {
                           2 mtd_dtor of a normal thread end (pipe open) *)
   tc_ops2 : list op; tc_sync2 : list bool;     (* not []: after tc_ops the task exec()s an image that runs these hook
                                                   calls (tc_kill / tc_flush then concern the second image) *)
+  tc_evs : ev_tab; tc_evs2 : ev_tab;           (* EVENT records with payload of read triggers (record_event), per image *)
   (* what the implementation showed *)
   tc_shl : list nat; tc_shf : list N; tc_wl : list nat; tc_file : list N }.
 
@@ -829,11 +849,13 @@ Fixpoint tie_ops_f (single : bool) (cap : nat) (i close_at : nat) (groups : list
   end.
 Definition tc_groups (tc : tcase) : list (list rec) :=
   let '(stk, rss) := ops_run [] (tc_ops tc) in
+  map (add_events (tc_evs tc))
   match tc_ops2 tc with
   | [] => if tc_flush tc then rss ++ [segv_flush stk] else rss
   | _ => rss
   end.
 Definition tc_groups2 (tc : tcase) : list (list rec) :=
+  map (add_events (tc_evs2 tc))
   match tc_ops2 tc with
   | [] => []
   | ops2 => let '(stk, rss) := ops_run [] ops2 in if tc_flush tc then rss ++ [segv_flush stk] else rss
@@ -886,18 +908,20 @@ Definition agrees (tc : tcase) : bool :=
 Definition ok_case (tc : tcase) : bool :=
   match tc_ops2 tc with
   | [] =>
-      if tc_flush tc && (length (tc_ops tc) <=? tc_close tc) then match_recs (eager [] (tc_ops tc)) (tc_file tc)
-      else ok_prefix (eager [] (tc_ops tc)) (tc_file tc)
+      let want := add_events (tc_evs tc) (eager [] (tc_ops tc)) in
+      if tc_flush tc && (length (tc_ops tc) <=? tc_close tc) then match_recs want (tc_file tc)
+      else ok_prefix want (tc_file tc)
   | ops2 =>
       (* the old image ran all its hook calls (what it had written lazily stays); then the new image's trace *)
-      let old := concat (snd (ops_run [] (tc_ops tc))) in
-      if tc_flush tc then match_recs (old ++ eager [] ops2) (tc_file tc)
-      else ok_prefix (old ++ eager [] ops2) (tc_file tc) && match_recs old (firstn (length (concat (map (fun r => hdr r ++ r_pl r ++ repeat 0%N (align8 (length (r_pl r)) - length (r_pl r))) old))) (tc_file tc))
+      let old := add_events (tc_evs tc) (concat (snd (ops_run [] (tc_ops tc)))) in
+      let new := add_events (tc_evs2 tc) (eager [] ops2) in
+      if tc_flush tc then match_recs (old ++ new) (tc_file tc)
+      else ok_prefix (old ++ new) (tc_file tc) && match_recs old (firstn (length (concat (map (fun r => hdr r ++ r_pl r ++ repeat 0%N (align8 (length (r_pl r)) - length (r_pl r))) old))) (tc_file tc))
   end.
 (* the header-before-payload window (known defect): whole records followed by one bare header *)
 Definition window_shape (tc : tcase) : bool :=
   let f := tc_file tc in
-  (16 <=? length f) && ok_prefix (eager [] (tc_ops tc)) (firstn (length f - 16) f).
+  (16 <=? length f) && ok_prefix (add_events (tc_evs tc) (eager [] (tc_ops tc))) (firstn (length f - 16) f).
 Definition is_dark (s : st) : bool := match pc s with PDark => true | _ => false end.
 Definition tc_in_window (tc : tcase) : bool := in_window (tc_single tc) (tc_state tc).
 
